@@ -113,7 +113,7 @@ Proof. intros [k f]. unfold same_policy. simpl. now rewrite String.eqb_refl, tys
 Definition agree (ls : list loc) (s s' : store) : Prop := forall l, In l ls -> s l = s' l.
 
 Lemma writes_within : forall k p, incl (writes k p) (locs_of_policy p).
-Proof. intros k p l H. unfold writes in H. apply filter_In in H. tauto. Qed.
+Proof. intros k p l H. exact (proj1 (proj1 (filter_In (write_sel k p) l (locs_of_policy p)) H)). Qed.
 
 Lemma reads_within : forall k p, incl (reads k p) (locs_of_policy p).
 Proof. intros k p l H. exact H. Qed.
